@@ -19,14 +19,16 @@ from vf import build, recs, tlc
 
 _PID = "-%d" % os.getpid()
 
-KIND_CODE = {"next": 1, "setprio": 2, "addback": 3, "addfront": 4, "conduse": 5, "readd": 6, "tick": 7}
-ALPHA_LETTER = {"n": 1, "s": 2, "a": 3, "f": 4, "c": 5, "r": 6, "t": 7, "v": 2}
+KIND_CODE = {"next": 1, "setprio": 2, "addback": 3, "addfront": 4, "conduse": 5, "readd": 6, "tick": 7, "otherclear": 8, "reload": 9}
+ALPHA_LETTER = {"n": 1, "s": 2, "a": 3, "f": 4, "c": 5, "r": 6, "t": 7, "v": 2, "x": 8, "R": 9}
 SIG_CLAUSE = {"C17:wait-unperturbed": "wait-unperturbed", "C17:wait-perturbed": "wait", "C17:proportion": "proportion",
               "C17:selected-message-without-priority-or-none": "selection"}
 # sub-alphabets in increasing order; the first one on which the monitor rejects names the signature
 MASKS = [("17", "no-perturbation"), ("127", "after-setPollPriority"), ("1347", "after-addPollMessage"),
          ("12347", "after-setPollPriority+addPollMessage"), ("123457", "after-condition-use"), ("167", "after-readd"),
-         ("1234567", "mixed")]
+         ("179", "after-reload"), ("1279", "after-reload+setPollPriority"),
+         ("178", "after-other-map-cleared"), ("1278", "after-other-map-cleared+setPollPriority"),
+         ("12789", "after-other-map-cleared+reload+setPollPriority"), ("123456789", "mixed")]
 
 
 def _cfgfile(wd, name, prios, maxnodes, cap, alpha, setprios):
@@ -126,7 +128,7 @@ def _judge_graph(ctx, exe, wd, job, cfg, graph, info, clause, stats, samples, te
 
 def _run_job(ctx, exe, wd, job, stats, samples):
     t0 = time.time()
-    clauses = ["prop", "wait"] if "r" in job.alpha else ["both"]   # on re-add graphs report each clause on its own
+    clauses = ["prop", "wait"] if set(job.alpha) & set("rxR") else ["both"]   # on re-add graphs report each clause on its own
     cfg = _cfgfile(wd, job.name, job.prios, job.maxnodes, job.cap, job.alpha, job.setprios)
     graph = os.path.join(wd, job.name + ".ndjson")
     out = recs.run_harness(ctx, exe, ["graph", cfg, graph], env=None if job.state else {"C17_NOSTATE": "1"}, timeout=3000)
@@ -164,6 +166,7 @@ def run(ctx):
     mcs = [("MC_Poll_nt.cfg", "N=4 {1,2,3,5} unperturbed, + vector top is arg-min", True),
            ("MC_Poll_pert_q.cfg", "N=2 {1,2} all perturbations except re-add, K=1", True),
            ("MC_Poll_readd.cfg", "N=2 (1,2) remove + re-add (new instance at g_lastPollOrder + priority), fix-point", True),
+           ("MC_Poll_reload.cfg", "N=3 (1,2,3) reload of the map (all instances new) + setprio of message 2 over {1,3} + front insertion", True),
            ("MC_Poll_self3.cfg", "N=3 (2,3,8), the priority of message 3 changed over {7,8,9} any number of times between selections", True)]
     if ctx.thorough:
         mcs += [("MC_Poll_pert_t.cfg", "N=3 priorities (1,1,2), setprio {1,2} / add front / back, K=1", True),
@@ -186,7 +189,8 @@ def run(ctx):
     jobs = [Job("n2full", [1, 2], "ntsaf", [1, 2, 3], 1),
             Job("n3add", [1, 2, 3], "ntaf", [1, 2, 3], 2),
             Job("n3victim", [1, 2, 8], "nv", [8, 9], 1),
-            Job("n2readd", [1, 2], "nr", [1, 2], 1, cap=12, maxnodes=8000)]
+            Job("n2readd", [1, 2], "nr", [1, 2], 1, cap=12, maxnodes=8000),
+            Job("n2other", [1, 2], "nxRv", [2, 3], 1, cap=16, maxnodes=8000)]
     if ctx.thorough:
         jobs = [Job("n2full", [1, 2], "ntsaf", [1, 2, 3], 2),
                 Job("n2cond7", [1, 2], "nsafc", [1, 7], 1),
@@ -195,14 +199,16 @@ def run(ctx):
                 Job("n3victim", [1, 2, 8], "ntv", [3, 8, 9], 1),
                 Job("n2readd", [1, 2], "nr", [1, 2], 1, cap=24, maxnodes=20000),
                 Job("n3readd", [1, 2, 3], "nr", [1, 2, 3], 1, cap=12, maxnodes=30000),
-                Job("n2readdmix", [1, 2], "nrsf", [1, 3], 1, cap=8, maxnodes=30000)]
+                Job("n2readdmix", [1, 2], "nrsf", [1, 3], 1, cap=8, maxnodes=30000),
+                Job("n2other", [1, 2], "nxRs", [1, 3], 1, cap=24, maxnodes=30000),
+                Job("n3other", [1, 2, 3], "nxRv", [1, 3], 1, cap=12, maxnodes=30000)]
     for job in jobs:
         _run_job(ctx, exe, wd, job, stats, samples)
 
     # 3. long seeded random executions as linear traces ---------------------------------------------------------------
     prios10 = [1, 2, 3, 4, 5, 6, 7, 8, 9, 9]
     # toggle = period (in selections) at which the last message's priority is switched between 8 and 9
-    runs = [("rnd-pert", prios10, "ntsafc", 100, 7), ("rnd-storm", [3, 1, 4, 1, 5, 9, 2, 6], "ntsafc", 400, 0),
+    runs = [("rnd-pert", prios10, "ntsafcx", 100, 7), ("rnd-storm", [3, 1, 4, 1, 5, 9, 2, 6], "ntsafcxR", 400, 0),
             ("rnd-toggle", [1, 1, 1, 8], "nt", 0, 5)]
     if ctx.thorough:
         runs.insert(0, ("rnd-quiet", prios10, "nt", 0, 0))
@@ -248,7 +254,11 @@ def run(ctx):
         "graphs without re-add: state restore through VerifAccess up to a common translation of all poll orders and "
         "g_lastPollOrder (a file-static that can only be raised); exact for code that only compares/subtracts poll orders; "
         "every rejected path is re-executed from the initial state in a fresh process before it is reported",
-        "graphs with re-add: exact re-execution in forked children; absolute minimum order capped in the visited-key "
+        "a second MessageMap instance (own poll message, constructed as MainLoop::m_newlyDefinedMessages) lives beside the "
+        "main map; input otherclear clears+reloads it and every second time destroys+recreates it; in P that is no event of "
+        "the main map, in S a no-op (the maps share only the file-static g_lastPollOrder); reload = clear() of the main map + "
+        "all definitions again (all messages new in P)",
+        "graphs with re-add / other-map / reload inputs: exact re-execution in forked children; absolute minimum order capped in the visited-key "
         "(bounded exploration, not a fix-point in the absolute order)",
         "setPollPriority is driven as all callers do: addPollMessage(false) iff it returned true; priorities 1..9",
         "monitor: events applied to a message itself (setPollPriority, front/back insertion, condition use) never extend "
